@@ -859,6 +859,9 @@ func unop(instr *ssa.UnOp, x value) value {
 	if sp, ok := x.(*symPtr); ok && instr.Op == token.MUL {
 		return sp.load()
 	}
+	if cp, ok := x.(*castPtr); ok && instr.Op == token.MUL {
+		return cp.load()
+	}
 	switch instr.Op {
 	case token.ARROW: // receive
 		v, ok := <-x.(chan value)
@@ -1302,7 +1305,10 @@ func conv(t_dst, t_src types.Type, x value) value {
 		case *types.Basic:
 			// *value to unsafe.Pointer?
 			if ut_dst.Kind() == types.UnsafePointer {
-				return unsafe.Pointer(x.(*value))
+				if p, ok := x.(*value); ok {
+					return &unsafePtr{p: p, elem: ut_src.Elem()}
+				}
+				return x
 			}
 		}
 
@@ -1323,6 +1329,23 @@ func conv(t_dst, t_src types.Type, x value) value {
 		}
 
 	case *types.Basic:
+		if up, ok := x.(*unsafePtr); ok && ut_src.Kind() == types.UnsafePointer {
+			if pd, ok := ut_dst.(*types.Pointer); ok {
+				if types.Identical(pd.Elem(), up.elem) {
+					return up.p
+				}
+				sk, ok1 := basicKindOf(up.elem)
+				dk, ok2 := basicKindOf(pd.Elem())
+				if ok1 && ok2 && sk != types.Bool && dk != types.Bool && kindWidth(sk) == kindWidth(dk) {
+					return &castPtr{p: up.p, from: sk, to: dk}
+				}
+				panic(unsupported{fmt.Sprintf("unsafe pointer cast *%s -> *%s", up.elem, pd.Elem())})
+			}
+			if b, ok := ut_dst.(*types.Basic); ok && (b.Kind() == types.UnsafePointer) {
+				return up
+			}
+			panic(unsupported{"unsafe.Pointer conversion"})
+		}
 		x = widen(x)
 
 		// integer -> string?
@@ -1358,6 +1381,25 @@ func conv(t_dst, t_src types.Type, x value) value {
 		}
 
 		// unsafe.Pointer -> *value
+		if up, ok := x.(*unsafePtr); ok && ut_src.Kind() == types.UnsafePointer {
+			if pd, ok := ut_dst.(*types.Pointer); ok {
+				if types.Identical(pd.Elem(), up.elem) {
+					return up.p
+				}
+				sk, ok1 := basicKindOf(up.elem)
+				dk, ok2 := basicKindOf(pd.Elem())
+				if ok1 && ok2 && sk != types.Bool && dk != types.Bool && kindWidth(sk) == kindWidth(dk) {
+					return &castPtr{p: up.p, from: sk, to: dk}
+				}
+				panic(unsupported{fmt.Sprintf("unsafe pointer cast *%s -> *%s", up.elem, pd.Elem())})
+			}
+			if b, ok := ut_dst.(*types.Basic); ok && (b.Kind() == types.UnsafePointer) {
+				return up
+			}
+			if b, ok := ut_dst.(*types.Basic); ok && (b.Kind() == types.Uintptr) {
+				panic(unsupported{"unsafe.Pointer to uintptr"})
+			}
+		}
 		if ut_src.Kind() == types.UnsafePointer {
 			// TODO(adonovan): this is wrong and cannot
 			// really be fixed with the current design.
